@@ -6,9 +6,11 @@ import AslModel.Model.DataTI
 /-! Driver mode `c09t`: STRING / RSTRING / BYTE / WORD / LONG (tipseudo.c `pseudo_store`) mixed with DATA on the
 TMS3202x / 3205x / 3254x.
 
-request : as mode `c09d`, but every statement is `<op>:<nargs> arg^nargs` with
+request : optional first token `cut=0|1` (probe, see `Model/DataTI.lean` `cutVal`), then as mode `c09d`, but every statement is `<op>:<nargs> arg^nargs` with
   `op` = `D` (DATA) | `S` (STRING) | `R` (RSTRING) | `B` (BYTE) | `W` (WORD) | `L` (LONG)
-answer  : `model=<eq|ne> spec=<ok|fail> mres=<err|n bytes> sres=<err|n units> gran=<g>` (+ `mout=` / `sout=`)
+answer  : `model=<eq|ne> spec=<ok|fail> mres=<err|n bytes> sres=<err|n units> gran=<g> pre=<0|1> thm=<ok|BROKEN>` (+ `mout=` / `sout=`)
+ * pre – the case meets the hypothesis of `C09_ti_slot_model_eq_spec` (`stmtOKb`, 256-entry table, Int16, 2-byte units);
+   thm – under it model slot = spec slot (the theorem, re-evaluated on the executable definitions)
  * model – real bytes = `Model/DataTI.lean` (B);  spec – real units = `Spec/DataTI.lean` (C)
 -/
 namespace Driver.C09T
@@ -47,8 +49,8 @@ partial def parseTStmts : Nat → List String → Option (List TIStmt × List St
     | none => none
     | some (s, ts') => (parseTStmts k ts').map fun (ss, r) => (s :: ss, r)
 
-def handle (line : String) : String :=
-  match words line with
+def handleW (cut : Bool) (ws : List String) : String :=
+  match ws with
   | cpu :: seg :: tn :: bits :: pk :: pc0 :: ncs :: rest =>
     match seg.toNat?, bits.toNat?, C09D.packOf pk, pc0.toNat?, ncs.toNat?, C09D.typIndex tn with
     | some segn, some w, some pack, some pc, some nc, some typ =>
@@ -72,7 +74,7 @@ def handle (line : String) : String :=
                   match mkCtx typ (modelCharsets ops) with
                   | none => "bad-request inttype"
                   | some d =>
-                    let m := modelRunT d g lg turn pc stmts
+                    let m := modelRunT cut d g lg turn pc stmts
                     let s := specRunT ⟨w, pack, specCharsets ops⟩ pc stmts
                     let meq : Bool := match m, real with
                       | none, none => true
@@ -87,11 +89,26 @@ def handle (line : String) : String :=
                       | _, _ => false
                     let mres := match m with | some (c, _) => toString c.length | none => "err"
                     let sres := match s with | some (c, _) => toString c.length | none => "err"
-                    s!"model={if meq then "eq" else "ne"} spec={if sok then "ok" else "fail"} mres={mres} sres={sres} gran={g}" ++
+                    -- hypothesis of `C09_ti_slot_model_eq_spec` (Props/C09_TI.lean) on this case
+                    let pre : Bool := stmts.all (stmtOKb cut) && (modelCharsets ops).length == 256 && typ == AslModel.Generated.itInt16 && g == 2
+                    -- under it the theorem says: model slot = spec slot (units as bytes); `thm` re-checks that on the executable definitions
+                    let thm : Bool := !pre || (match m, s with
+                      | none, none => true
+                      | some (mc, me), some (sc, se) => me == se && (C09D.unitsOf g turn mc == some sc)
+                      | _, _ => false)
+                    s!"model={if meq then "eq" else "ne"} spec={if sok then "ok" else "fail"} mres={mres} sres={sres} gran={g} pre={if pre then 1 else 0} thm={if thm then "ok" else "BROKEN"}" ++
                       (if meq then "" else " mout=" ++ (match m with | some (c, _) => C09.showCells c | none => "ERR")) ++
                       (if sok then "" else " sout=" ++ (match s with | some (c, _) => C09D.showW c | none => "ERR"))
           | [] => "bad-request nstmt"
     | _, _, _, _, _, _ => "bad-request header"
   | _ => "bad-request"
+
+/-- first token `cut=1` / `cut=0`: the probe of the check (does the real binary still hand the value to the callbacks of
+`pseudo_store` through a 32-bit parameter?); without it: the current code (`cut = false`) -/
+def handle (line : String) : String :=
+  match words line with
+  | "cut=1" :: ws => handleW true ws
+  | "cut=0" :: ws => handleW false ws
+  | ws => handleW false ws
 
 end Driver.C09T
